@@ -41,6 +41,7 @@ type c17Block struct {
 	rootID int // identifies the state trie content; blocks with equal rootID share a state root
 	hash   common.Hash
 	root   common.Hash
+	hdr    types.Header // the imported header (harness model only)
 	// status
 	abandoned bool
 }
@@ -96,6 +97,10 @@ type c17Harness struct {
 	storage *InmemoryStorageState
 	model   c17Model
 	unknown common.Hash
+	// hashes of blocks whose import was refused and that were never part of the
+	// tree (children of abandoned / stale blocks, wrong numbers, orphans)
+	refused     []common.Hash
+	refusedKind []string
 }
 
 func c17Trie(rootID int) *inmemory_trie.InMemoryTrie {
@@ -146,7 +151,7 @@ func c17New() (*c17Harness, error) {
 	if err := h.storage.StoreTrie(rtstorage.NewTrieState(gtr), nil); err != nil {
 		return nil, fmt.Errorf("StoreTrie(genesis): %w", err)
 	}
-	h.model.blocks = []c17Block{{parent: -1, number: 0, rootID: 0, hash: genesis.Hash(), root: gtr.MustHash()}}
+	h.model.blocks = []c17Block{{parent: -1, number: 0, rootID: 0, hash: genesis.Hash(), root: gtr.MustHash(), hdr: *genesis}}
 	h.unknown = common.Hash{0xde, 0xad, 0xbe, 0xef}
 	return h, nil
 }
@@ -174,7 +179,7 @@ func (h *c17Harness) addBlock(parent, rootID int, primary bool) error {
 		return fmt.Errorf("AddBlock(child of #%d): %w", parent, err)
 	}
 	h.model.blocks = append(h.model.blocks, c17Block{parent: parent, number: hdr.Number, rootID: rootID,
-		hash: blk.Header.Hash(), root: hdr.StateRoot})
+		hash: blk.Header.Hash(), root: hdr.StateRoot, hdr: hdr})
 	return nil
 }
 
@@ -199,6 +204,7 @@ func (h *c17Harness) snapshot() (chain, rounds string) {
 		probe = append(probe, b.hash)
 	}
 	probe = append(probe, h.unknown)
+	probe = append(probe, h.refused...)
 	for i, hash := range probe {
 		has, err1 := h.bs.HasHeader(hash)
 		hdr, err2 := h.bs.GetHeader(hash)
@@ -207,7 +213,15 @@ func (h *c17Harness) snapshot() (chain, rounds string) {
 		if hdr != nil {
 			hn = int(hdr.Number)
 		}
-		fmt.Fprintf(&sb, "b%d has=%v/%v get=%d/%v db=%v/%v\n", i, has, err1 != nil, hn, err2 != nil, indb, err3 != nil)
+		blk, err4 := h.bs.GetBlockByHash(hash)
+		bn := -1
+		if blk != nil {
+			bn = int(blk.Header.Number)
+		}
+		body, err5 := h.bs.GetBlockBody(hash)
+		hasBody, err6 := h.bs.HasBlockBody(hash)
+		fmt.Fprintf(&sb, "b%d has=%v/%v get=%d/%v db=%v/%v block=%d/%v body=%v/%v hasBody=%v/%v\n", i, has, err1 != nil, hn, err2 != nil,
+			indb, err3 != nil, bn, err4 != nil, body != nil, err5 != nil, hasBody, err6 != nil)
 	}
 	for n := uint(0); n <= h.maxNumber()+1; n++ {
 		hash, err := h.bs.GetHashByNumber(n)
@@ -216,8 +230,8 @@ func (h *c17Harness) snapshot() (chain, rounds string) {
 	}
 	h.bs.unfinalisedBlocks.mutex.RLock()
 	keys := make([]string, 0, len(h.bs.unfinalisedBlocks.mapping))
-	for k := range h.bs.unfinalisedBlocks.mapping {
-		keys = append(keys, k.String())
+	for k, blk := range h.bs.unfinalisedBlocks.mapping {
+		keys = append(keys, fmt.Sprintf("%s:#%d:parent=%s:hash=%s", k, blk.Header.Number, blk.Header.ParentHash, blk.Header.Hash()))
 	}
 	h.bs.unfinalisedBlocks.mutex.RUnlock()
 	sort.Strings(keys)
@@ -315,16 +329,99 @@ func (h *c17Harness) checkAbandoned(where string) error {
 		if has, err := h.bs.HasHeader(b.hash); err != nil || has {
 			return fmt.Errorf("%s: abandoned b%d: HasHeader = %v, %v", where, i, has, err)
 		}
+		if blk, err := h.bs.GetBlockByHash(b.hash); err == nil {
+			return fmt.Errorf("%s: abandoned b%d is still retrievable: GetBlockByHash = #%d", where, i, blk.Header.Number)
+		}
+		if body, err := h.bs.GetBlockBody(b.hash); err == nil {
+			return fmt.Errorf("%s: abandoned b%d is still retrievable: GetBlockBody = %v", where, i, body)
+		}
 		if !keptRoots[b.root] && h.tries.get(b.root) != nil {
 			return fmt.Errorf("%s: state trie (rootID %d) of abandoned b%d is still held in Tries and no surviving block has that root",
 				where, b.rootID, i)
 		}
 	}
+	// blocks whose import was refused were never part of the tree: they are not
+	// retrievable either, now or after any later finalisation
+	for i, hash := range h.refused {
+		what := fmt.Sprintf("refused import x%d (%s)", i, h.refusedKind[i])
+		if blk := h.bs.unfinalisedBlocks.getBlock(hash); blk != nil {
+			return fmt.Errorf("%s: %s is in unfinalisedBlocks", where, what)
+		}
+		if hdr, err := h.bs.GetHeader(hash); err == nil {
+			return fmt.Errorf("%s: %s is retrievable: GetHeader = #%d", where, what, hdr.Number)
+		}
+		if has, err := h.bs.HasHeader(hash); err != nil || has {
+			return fmt.Errorf("%s: %s: HasHeader = %v, %v", where, what, has, err)
+		}
+		if blk, err := h.bs.GetBlockByHash(hash); err == nil {
+			return fmt.Errorf("%s: %s is retrievable: GetBlockByHash = #%d", where, what, blk.Header.Number)
+		}
+		if _, err := h.bs.GetBlockBody(hash); err == nil {
+			return fmt.Errorf("%s: %s is retrievable: GetBlockBody", where, what)
+		}
+	}
 	return nil
 }
 
+// badImport builds the block of a refused-import op and classifies it with the
+// model. isNew: the hash was never imported before.
+func (h *c17Harness) badImport(o c17Op) (blk *types.Block, class string, isNew bool, err error) {
+	m := &h.model
+	classOf := func(i int) string {
+		switch {
+		case m.blocks[i].abandoned:
+			return "abandoned"
+		case m.live(i):
+			return "live"
+		case m.onFinalisedChain(i):
+			return "stale"
+		}
+		return "?"
+	}
+	k := len(h.refused)
+	fresh := func(parent common.Hash, number uint) *types.Block {
+		return &types.Block{Header: types.Header{
+			ParentHash:     parent,
+			Number:         number,
+			StateRoot:      c17Trie(1000 + k).MustHash(),
+			ExtrinsicsRoot: common.Hash{byte(k), byte(k >> 8), 0xbd},
+			Digest:         c17Digest(uint64(5000+k), k%2 == 0),
+		}, Body: types.Body{}}
+	}
+	switch o.sub {
+	case "re": // the very same block again
+		b := m.blocks[o.target]
+		hdr := types.Header{ParentHash: b.hdr.ParentHash, Number: b.hdr.Number, StateRoot: b.hdr.StateRoot,
+			ExtrinsicsRoot: b.hdr.ExtrinsicsRoot, Digest: b.hdr.Digest}
+		if hdr.Hash() != b.hash {
+			return nil, "", false, fmt.Errorf("harness: rebuilt header of b%d has another hash", o.target)
+		}
+		return &types.Block{Header: hdr, Body: types.Body{}}, "re-" + classOf(o.target), false, nil
+	case "child": // a new block under target, number = parent+1+delta
+		b := m.blocks[o.target]
+		pc := classOf(o.target)
+		if pc == "live" && o.delta == 0 {
+			return nil, "", false, fmt.Errorf("harness: op %s would be a valid import", o)
+		}
+		n := int(b.number) + 1 + o.delta
+		if n < 0 {
+			n = 0
+		}
+		class = "child-of-" + pc
+		if pc == "live" {
+			class = "wrong-number"
+		}
+		return fresh(b.hash, uint(n)), class, true, nil
+	case "orphan":
+		return fresh(common.Hash{0x0f, byte(k), 0xaa}, uint(1+k%5)), "orphan", true, nil
+	}
+	return nil, "", false, fmt.Errorf("harness: unknown import kind %q", o.sub)
+}
+
 type c17Op struct {
-	kind    string // "add" | "fin"
+	kind    string // "add" | "fin" | "bad" (an import that must be refused)
+	sub     string // bad: "re" (same block again) | "child" (new block under target) | "orphan"
+	delta   int    // bad/child: offset added to the correct number
 	parent  int    // add: model index of parent
 	rootID  int    // add
 	primary bool   // add
@@ -333,6 +430,15 @@ type c17Op struct {
 }
 
 func (o c17Op) String() string {
+	if o.kind == "bad" {
+		switch o.sub {
+		case "re":
+			return fmt.Sprintf("I(again b%d)", o.target)
+		case "child":
+			return fmt.Sprintf("I(child-of b%d,%+d)", o.target, o.delta)
+		}
+		return "I(orphan)"
+	}
 	if o.kind == "add" {
 		p := "s"
 		if o.primary {
@@ -370,6 +476,35 @@ func c17Exec(ops []c17Op) (st c17Stats, err error) {
 		if o.kind == "add" {
 			if err := h.addBlock(o.parent, o.rootID, o.primary); err != nil {
 				return st, fmt.Errorf("%s: %w", where, err)
+			}
+			continue
+		}
+		if o.kind == "bad" {
+			blk, class, isNew, err := h.badImport(o)
+			if err != nil {
+				return st, fmt.Errorf("%s: %w", where, err)
+			}
+			if isNew {
+				// probed by the snapshot from now on (before and after)
+				h.refused = append(h.refused, blk.Header.Hash())
+				h.refusedKind = append(h.refusedKind, class)
+			}
+			st.labels["import/"+class] = true
+			if class == "re-abandoned" || class == "child-of-abandoned" {
+				st.nontrivial = true
+			}
+			chainBefore, roundsBefore := h.snapshot()
+			gotErr := h.bs.AddBlock(blk)
+			chainAfter, roundsAfter := h.snapshot()
+			if gotErr == nil {
+				return st, fmt.Errorf("%s: import (%s) that the block tree must refuse succeeded", where, class)
+			}
+			if chainBefore != chainAfter || roundsBefore != roundsAfter {
+				return st, fmt.Errorf("%s: refused import (%s: %v) changed observable state:\n%s\n  rounds %s -> %s", where, class, gotErr,
+					c17Diff(chainBefore, chainAfter), roundsBefore, roundsAfter)
+			}
+			if err := h.checkAbandoned(where); err != nil {
+				return st, err
 			}
 			continue
 		}
@@ -537,8 +672,47 @@ func c17Gen(t *rapid.T) []c17Op {
 			ops = append(ops, c17Op{kind: "add", parent: parent, rootID: rootID, primary: rapid.Bool().Draw(t, "primary")})
 			m.blocks = append(m.blocks, c17Block{parent: parent, number: m.blocks[parent].number + 1, rootID: rootID})
 		}
+		drawBad := func() {
+			nBad := rapid.SampledFrom([]int{0, 0, 1, 1, 2}).Draw(t, "nBad")
+			for b := 0; b < nBad; b++ {
+				var abandoned, stale, live []int
+				for j := range m.blocks {
+					switch {
+					case m.blocks[j].abandoned:
+						abandoned = append(abandoned, j)
+					case m.live(j):
+						live = append(live, j)
+					default:
+						stale = append(stale, j)
+					}
+				}
+				op := c17Op{kind: "bad", sub: "orphan"}
+				pick := func(c []int, sub string, delta int) {
+					if len(c) > 0 {
+						op.sub, op.delta = sub, delta
+						op.target = c[rapid.IntRange(0, len(c)-1).Draw(t, "badTarget")]
+					}
+				}
+				switch rapid.IntRange(0, 9).Draw(t, "badMode") {
+				case 0, 1:
+					pick(abandoned, "re", 0)
+				case 2, 3:
+					pick(abandoned, "child", rapid.SampledFrom([]int{0, 0, 0, 1}).Draw(t, "badDelta"))
+				case 4:
+					pick(live, "re", 0)
+				case 5, 6:
+					pick(live, "child", rapid.SampledFrom([]int{-1, 1}).Draw(t, "badDelta"))
+				case 7:
+					pick(stale, "re", 0)
+				case 8:
+					pick(stale, "child", 0)
+				}
+				ops = append(ops, op)
+			}
+		}
 		nFin := rapid.IntRange(1, 4).Draw(t, "nFin")
 		for i := 0; i < nFin; i++ {
+			drawBad()
 			var cands []int
 			mode := rapid.IntRange(0, 9).Draw(t, "finMode")
 			switch {
@@ -573,6 +747,7 @@ func c17Gen(t *rapid.T) []c17Op {
 				m.finalise(op.target)
 			}
 		}
+		drawBad()
 	}
 	return ops
 }
@@ -606,6 +781,7 @@ func TestC17Regressions(t *testing.T) {
 	defer kit.Flush()
 	add := func(p, r int) c17Op { return c17Op{kind: "add", parent: p, rootID: r, primary: true} }
 	fin := func(x int) c17Op { return c17Op{kind: "fin", target: x} }
+	bad := func(sub string, x, delta int) c17Op { return c17Op{kind: "bad", sub: sub, target: x, delta: delta} }
 	cases := map[string][]c17Op{
 		// genesis b0 with children b1, b2, b3; finalising b3 abandons b1 and b2. With
 		// blocktree's node.prune ranging over the slice it mutates, b2 is skipped: it
@@ -613,7 +789,13 @@ func TestC17Regressions(t *testing.T) {
 		"two-abandoned-siblings": {add(0, 1), add(0, 2), add(0, 3), fin(3)},
 		// abandoned subtree whose root has two children
 		"abandoned-fork-with-two-children": {add(0, 1), add(1, 2), add(1, 3), add(0, 4), fin(4)},
-		"stale-and-abandoned-targets":      {add(0, 1), add(0, 2), add(1, 3), fin(3), fin(2), fin(0), fin(1), fin(-1), fin(3)},
+		// b1, b2 under genesis; finalising b2 abandons b1. Then b1 arrives again, a late child of b1
+		// arrives, a duplicate of the head's child, a wrong number, an orphan, a child of the stale
+		// genesis: all refused, nothing changes, nothing of it is retrievable after the next finalisation.
+		"refused-imports-after-finalisation": {add(0, 1), add(0, 2), add(2, 3), fin(2),
+			bad("re", 1, 0), bad("child", 1, 0), bad("re", 3, 0), bad("child", 3, 1), bad("child", 2, -1), bad("orphan", 0, 0),
+			bad("child", 0, 0), bad("re", 0, 0), fin(3), bad("re", 1, 0), bad("child", 2, 0), fin(1)},
+		"stale-and-abandoned-targets": {add(0, 1), add(0, 2), add(1, 3), fin(3), fin(2), fin(0), fin(1), fin(-1), fin(3)},
 	}
 	names := make([]string, 0, len(cases))
 	for n := range cases {
